@@ -223,6 +223,7 @@ def _verify_request(sig, spec, td, path, fresh, allow_mismatch_error=False, alt=
         back = MazeDataset.read(path)
     except Exception as e:  # noqa: BLE001
         raise Violation(f"{sig}:file-left-unloadable:{type(e).__name__}", str(e)[:300]) from e
+    require(isinstance(back, MazeDataset), f"{sig}:file-left-unloadable:{type(back).__name__}", f"reading the file left behind gave {type(back).__name__}, not a dataset")
     require(_fp(back) == got, f"{sig}:file-left-wrong-data", "the file left behind holds other mazes than the request returned")
     _cfg_matches(f"{sig}:file-left-config-differs", spec, back.cfg)
     return "data"
